@@ -97,10 +97,12 @@ pub enum CallKind {
     /// `*_with_backend(closure)` where the closure runs a generated legal mixture of
     /// `block` / `par_blocks` / `tail_blocks` backend calls over `(in, out)`
     Backend,
+    /// the same closure over one buffer (in place)
+    BackendInplace,
 }
 
 impl CallKind {
-    pub const ALL: [CallKind; 8] = [
+    pub const ALL: [CallKind; 9] = [
         CallKind::Block,
         CallKind::Blocks,
         CallKind::BlockB2b,
@@ -109,9 +111,10 @@ impl CallKind {
         CallKind::BlocksInout,
         CallKind::BlocksInoutInplace,
         CallKind::Backend,
+        CallKind::BackendInplace,
     ];
     pub fn in_place(self) -> bool {
-        matches!(self, CallKind::Block | CallKind::Blocks | CallKind::BlocksInoutInplace)
+        matches!(self, CallKind::Block | CallKind::Blocks | CallKind::BlocksInoutInplace | CallKind::BackendInplace)
     }
 }
 
